@@ -6,13 +6,17 @@ from ..roles import P_, param, INFO_TY, ENV_TY, AnchorMissing
 from ..mir import generic_path
 from . import c01, c02
 
-QP_RE = r"C:haloswap::asset::PairInfoRaw::query_pools@%s:bb(\d+)"
-RATE_ITEMS = ({"load(I:halo_pair::state::COMMISSION_RATE_INFO)"}, {"load(I:halo_pair::state::PAIR_INFO).commission_rate"})
+QROLE = {"simulate": "q_simulate", "reverse_simulate": "q_reverse_simulate"}
+
+
+def RATE_ITEMS(ctx):
+    return ({"load(%s)" % ctx.N.COMMISSION}, {"load(%s).commission_rate" % ctx.N.PAIR_INFO})
 
 
 def query_handlers(P):
     q = roles.entry(P, "pair", "query")
-    d = common.dispatch(P, q, "haloswap::pair::QueryMsg")
+    from .. import names
+    d = common.dispatch(P, q, names.get(P).query_enum("pair"))
     if d is None:
         raise AnchorMissing("no match on pair::QueryMsg in the pair's query entry point")
     out = {}
@@ -31,20 +35,20 @@ def check_quote_wiring(ctx, inst, fn, pricing, key, reverse=False):
     """The query handler calls `pricing` with (offer reserve, ask reserve, amount, stored rate) selected by equal() on the named asset."""
     P = ctx.P
     body = fn.body
-    asset_i = common.param_index_of_type(fn, r"^haloswap::asset::Asset$")
+    asset_i = common.param_index_of_type(fn, "^%s$" % ctx.N.rx("Asset"))
     calls = [b for b, p, fr, t in P.calls(fn) if p and generic_path(p) == pricing.path]
     if asset_i is None or len(calls) != 1:
         inst.fail("%s:shape" % key, fn.path, fn.span, "expected one call of %s and one Asset parameter" % pricing.path)
         return None
     cb = calls[0]
-    qp = [(b, P.val_call(fn, body, b)) for b, p, fr, t in P.calls(fn) if p and generic_path(p).endswith("PairInfoRaw::query_pools")]
+    qp = [(b, P.val_call(fn, body, b)) for b, p, fr, t in P.calls(fn) if ctx.N.is_fn(p, "query_pools")]
     if len(qp) != 1:
         inst.fail("%s:pools" % key, fn.path, fn.span, "expected one query_pools call, found %d" % len(qp))
         return None
     qb, qv = qp[0]
-    QP = "C:haloswap::asset::PairInfoRaw::query_pools@%s:bb%d" % (fn.path, qb)
+    QP = "C:%s@%s:bb%d" % (ctx.N.cpath("query_pools"), fn.path, qb)
     acct = set(ctx.roots(qv[4][3]))
-    if set(ctx.roots(qv[4][0])) != {"load(I:halo_pair::state::PAIR_INFO)"} or acct != {"human(load(I:halo_pair::state::PAIR_INFO).contract_addr)"}:
+    if set(ctx.roots(qv[4][0])) != {"load(%s)" % ctx.N.PAIR_INFO} or acct != {"human(load(%s).contract_addr)" % ctx.N.PAIR_INFO}:
         inst.fail("%s:pools-origin" % key, fn.path, common.span_of_block_term(fn, qb), "quote reads reserves of %s for %s; expected the pair's own stored address" % (sorted(acct), sorted(ctx.roots(qv[4][0]))))
     else:
         inst.site("%s: reserves ⊢ PAIR_INFO.query_pools(own stored address)" % fn.name)
@@ -80,7 +84,7 @@ def check_quote_wiring(ctx, inst, fn, pricing, key, reverse=False):
     if set(ctx.roots(cv[4][2])) != {P_(fn, asset_i, ".amount")}:
         inst.fail("%s:amount" % key, fn.path, common.span_of_block_term(fn, cb), "priced amount ⊢ %s, expected the named asset's amount" % sorted(ctx.roots(cv[4][2])))
     rate = set(ctx.roots(cv[4][3]))
-    if rate not in RATE_ITEMS:
+    if rate not in RATE_ITEMS(ctx):
         inst.fail("%s:rate" % key, fn.path, common.span_of_block_term(fn, cb), "rate ⊢ %s, expected the pair's stored commission rate" % sorted(rate))
     else:
         inst.site("%s: rate ⊢ %s" % (fn.name, sorted(rate)[0]))
@@ -128,18 +132,18 @@ def run(ctx):
     r1.site("swap handler calls %s with rate ⊢ %s" % (pricing.path, sorted(rate_s)))
     # ---- R2 -----------------------------------------------------------------------------------------
     pi = roles.entry(P, "pair", "instantiate")
-    msg_i = common.param_index_of_type(pi, r"^haloswap::pair::InstantiateMsg$")
+    msg_i = common.param_index_of_type(pi, "^%s$" % re.escape(ctx.N.inst_msg("pair")))
     want = P_(pi, msg_i, ".commission_rate")
     for fn in P.prod_fns():
         for (b, op, item, v) in common.storage_sites(P, fn, writes=True):
-            if item == "I:halo_pair::state::COMMISSION_RATE_INFO":
+            if item == ctx.N.COMMISSION:
                 if fn.path != pi.path or set(ctx.roots(v[4][2])) != {want}:
                     r2.fail("C12.R2:rate-item:%s" % fn.path, fn.path, common.span_of_block_term(fn, b), "COMMISSION_RATE_INFO is written in %s from %s; expected only at instantiation from the message's commission_rate" % (fn.path, sorted(ctx.roots(v[4][2]))))
                 else:
                     r2.site("COMMISSION_RATE_INFO ⊢ InstantiateMsg.commission_rate")
-            if item == "I:halo_pair::state::PAIR_INFO":
+            if item == ctx.N.PAIR_INFO:
                 rs = set(ctx.roots(v[4][2], (("f", "commission_rate"),))) if op == "save" else set()
-                if op == "save" and not (rs == {want} or rs == {"load(I:halo_pair::state::PAIR_INFO).commission_rate"}):
+                if op == "save" and not (rs == {want} or rs == {"load(%s).commission_rate" % ctx.N.PAIR_INFO}):
                     r2.fail("C12.R2:pair-info-rate:%s" % fn.path, fn.path, common.span_of_block_term(fn, b), "PAIR_INFO.commission_rate is written from %s" % sorted(rs))
                 elif op == "save" and rs == {want}:
                     r2.site("PAIR_INFO.commission_rate ⊢ InstantiateMsg.commission_rate")
@@ -172,9 +176,9 @@ def run(ctx):
             den = qv_                                # y - ask/(1-c) after the certificate
             ysub = k * one_t + qv_
             closed = x * ysub / den - x
-            numeric.run_obligation(n1, "C12.N1", rpf, T, closed - offer, "closed form - quote >= 0", subst=cert)
+            numeric.run_obligation(n1, "C12.N1", rpf, T, closed - offer, "closed form - quote >= 0", subst=cert, role="reverse-pricing")
             lower = x * ysub / (den + k / RF(D18) + RF(1)) - RF(1) - x
-            numeric.run_obligation(n2, "C12.N2", rpf, T, offer - lower, "quote - (x*y/(den + ask/10^18 + 1) - 1 - x) >= 0", subst=cert)
+            numeric.run_obligation(n2, "C12.N2", rpf, T, offer - lower, "quote - (x*y/(den + ask/10^18 + 1) - 1 - x) >= 0", subst=cert, role="reverse-pricing")
             ctx.extra.setdefault("terms", {})["reverse"] = {"offer": offer.show(), "floors": ["%s = floor(%s)  <- %s" % (a, b.show(), o) for a, b, o in T.floors.items]}
         elif comps is not None:
             n1.fail("C12.N1:untranslatable", rpf.path, rpf.span, "cannot interpret the offer amount of the reverse formula: unrecognised-idiom")
@@ -182,7 +186,7 @@ def run(ctx):
     for inst, variant, qname, field, first in ((r3, "SimulateSwapOperations", "simulate", "return_amount", "offer"), (r4, "ReverseSimulateSwapOperations", "reverse_simulate", "offer_amount", "ask")):
         try:
             rq = roles.entry(P, "router", "query")
-            d = common.dispatch(P, rq, "haloswap::router::QueryMsg")
+            d = common.dispatch(P, rq, ctx.N.query_enum("router"))
             region = common.region_of_edge(rq.body, d[variant])
             hs = [(b, P.fn(p) or P.fn(generic_path(p))) for b, p, fr, t in P.calls(rq) if b in region and roles.is_workspace_fn(P, p)]
             if len(hs) != 1:
@@ -210,7 +214,7 @@ def check_fold(ctx, inst, fold, qname, field, reverse):
     or `operations.into_iter()[.rev()].try_fold(amount, |acc, op| ..)`; the per-hop code may live in a private helper."""
     P = ctx.P
     body = fold.body
-    ops_i = common.param_index_of_type(fold, r"^std::vec::Vec<haloswap::router::SwapOperation>$")
+    ops_i = common.param_index_of_type(fold, r"^std::vec::Vec<%s>$" % ctx.N.rx("SwapOperation"))
     amt_i = common.param_index_of_type(fold, r"^cosmwasm_std::\S*Uint128$")
     if ops_i is None or amt_i is None:
         inst.fail("%s:shape" % inst.id, fold.path, fold.span, "anchor-missing: fold parameters (Vec<SwapOperation>, Uint128)")
@@ -248,13 +252,13 @@ def check_fold(ctx, inst, fold, qname, field, reverse):
     sites = []
     for f2 in [hop_fn] + [P.fn(p) or P.fn(generic_path(p)) for b, p, fr, t in P.calls(hop_fn) if roles.is_workspace_fn(P, p) and generic_path(p).startswith("halo_router::")]:
         for b2, p2, fr2, t2 in P.calls(f2):
-            if p2 and generic_path(p2) == "haloswap::querier::%s" % qname:
+            if ctx.N.is_fn(p2, QROLE[qname]):
                 sites.append((f2, b2))
     if len(sites) != 1:
         inst.fail("%s:no-query" % inst.id, fold.path, fold.span, "expected one pair %s query per hop, found %d" % (qname, len(sites)))
         return
     qf, qb = sites[0]
-    QROOT = "C:haloswap::querier::%s@%s:bb%d.%s" % (qname, qf.path, qb, field)
+    QROOT = "C:%s@%s:bb%d.%s" % (ctx.N.cpath(QROLE[qname]), qf.path, qb, field)
     sub = {}
     if qf.path != hop_fn.path:
         hb = [b for b, p, fr, t in P.calls(hop_fn) if p and (P.fn(p) or P.fn(generic_path(p))) is not None and (P.fn(p) or P.fn(generic_path(p))).path == qf.path]
@@ -283,13 +287,13 @@ def check_fold(ctx, inst, fold, qname, field, reverse):
         return out
     acc = {AMT, QROOT_CALLER} if form == "loop" else {P_(hop_fn, 1)}
     qv = P.val_call(qf, qf.body, qb)
-    pv = [(b, P.val_call(qf, qf.body, b)) for b, p, fr, t in P.calls(qf) if p and generic_path(p) == "haloswap::querier::query_pair_info"]
+    pv = [(b, P.val_call(qf, qf.body, b)) for b, p, fr, t in P.calls(qf) if ctx.N.is_fn(p, "q_pair_info")]
     if len(pv) != 1:
         inst.fail("%s:pair-lookup" % inst.id, qf.path, qf.span, "expected one factory Pair query per hop, found %d" % len(pv))
         return
     pb, pvv = pv[0]
     fac = R(pvv[4][1])
-    if fac != {"human(load(I:halo_router::state::CONFIG).halo_factory)"}:
+    if fac != {"human(load(%s).halo_factory)" % ctx.N.ROUTER_CONFIG}:
         inst.fail("%s:factory" % inst.id, qf.path, common.span_of_block_term(qf, pb), "pairs are looked up at %s, expected the configured factory" % sorted(fac))
     arr = pvv[4][2]
     el = ["|".join(sorted(R(x))) for _, x in arr[3]] if arr[0] == "agg" and arr[1] == "array" else []
@@ -298,7 +302,7 @@ def check_fold(ctx, inst, fold, qname, field, reverse):
     else:
         inst.site("pair ⊢ factory.Pair([op.offer, op.ask])")
     tgt = R(qv[4][1])
-    if tgt != {"C:haloswap::querier::query_pair_info@%s:bb%d.contract_addr" % (qf.path, pb)}:
+    if tgt != {"C:%s@%s:bb%d.contract_addr" % (ctx.N.cpath("q_pair_info"), qf.path, pb)}:
         inst.fail("%s:query-target" % inst.id, qf.path, common.span_of_block_term(qf, qb), "the pair query goes to %s, expected the looked-up pair" % sorted(tgt))
     ainfo = R(qv[4][2], (("f", "info"),))
     aamt = R(qv[4][2], (("f", "amount"),))
